@@ -23,8 +23,13 @@ def fpts(poly) -> list:
 
 
 def ground_polygons(built) -> list:
-    """shapely polygons of the generator's ground truth (None for a hole)"""
-    return [None if p is None else Polygon(fpts(p)) for p in built.polys]
+    """shapely polygons of the generator's ground truth; None for a hole and for a cell whose
+    ground-truth outline is not a valid polygon (emsarray drops those: C06 `invalid_dropped`)"""
+    out = []
+    for p in built.polys:
+        g = None if p is None else Polygon(fpts(p))
+        out.append(g if g is not None and g.is_valid else None)
+    return out
 
 
 def extent(built):
